@@ -43,7 +43,7 @@ OpaqueSeq(n) == [j \in 1..n |-> Opaque]
 Resync(e) == [pc |-> e.pc, a |-> e.r[1], b |-> e.r[2], c |-> e.r[3], d |-> e.r[4],
               vs |-> OpaqueSeq(e.vs), rs |-> [j \in 1..(e.rs - 1) |-> <<Opaque, Opaque, Opaque, Opaque>>],
               vp |-> [j \in 1..e.vp |-> [n |-> "?", q |-> "?", sh |-> FALSE, deep |-> TRUE]],
-              ret |-> [j \in 1..e.ret |-> -1], gs |-> [j \in 1..e.gs |-> -1], br |-> OpaqueSeq(e.br), fres |-> Opaque,
+              ret |-> [j \in 1..e.ret |-> -1], gs |-> [j \in 1..e.gs |-> [pc |-> 0 - 1, d |-> 0, nr |-> 0, nv |-> 0]], br |-> OpaqueSeq(e.br), fres |-> Opaque,
               ctx |-> [j \in 1..e.cx |-> [blk |-> j - 1, coll |-> FALSE, args |-> <<>>]],
               blocks |-> [j \in 0..(e.cx - 1) |-> UnknownBlock], statics |-> [x \in {} |-> 0], nb |-> e.cx, lost |-> TRUE]
 
